@@ -9,6 +9,7 @@ import (
 	"path/filepath"
 	"sort"
 	"strconv"
+	"time"
 
 	"wrverif/core"
 	"wrverif/props"
@@ -68,24 +69,19 @@ func main() {
 		fmt.Fprintln(os.Stderr, "CHECKER-BROKEN: known_findings.json:", err)
 		os.Exit(2)
 	}
+	t0 := time.Now()
 	prog, err := core.Load(*repo)
+	loadSecs := time.Since(t0).Seconds()
 	exit := 0
 	for _, id := range ids {
 		if err != nil {
-			// nothing can be decided: a type error in /repo is a violation of every check
-			fmt.Printf("cannot load /repo: %v\n", err)
-			os.MkdirAll(filepath.Join(*verif, "evidence"), 0o755)
-			replay := filepath.Join(*verif, "evidence", id+".violations.json")
-			os.WriteFile(replay, []byte(fmt.Sprintf("{\"property\":%q,\"load_error\":%q}\n", id, err.Error())), 0o644)
-			os.WriteFile(filepath.Join(*verif, "evidence", id+".json"), []byte(fmt.Sprintf(
-				"{\"property_id\":%q,\"tier\":%q,\"seed\":%d,\"level\":\"other\",\"coverage\":{\"explanation\":\"/repo could not be loaded and type-checked, nothing was decided: %s\",\"obligations\":0,\"discharged\":0},\"wall_s\":0,\"violations\":1}\n",
-				id, *tier, seed, strconv.Quote(err.Error())[1:len(strconv.Quote(err.Error()))-1])), 0o644)
-			fmt.Printf("VIOLATION property=%s replay=%s\n", id, replay)
+			core.WriteLoadFailure(*verif, id, *tier, seed, err)
 			exit = 1
 			continue
 		}
 		c := core.NewCheck(id, *tier, prog, known)
 		c.Seed = seed
+		c.LoadSecs = loadSecs
 		func() {
 			defer func() {
 				if r := recover(); r != nil {
